@@ -18,7 +18,11 @@
 (* assignment: rhs first, then targets left to right; 7.2.1 augmented: target *)
 (* operands once, load, rhs, op, store).  Not observed: __hash__/__eq__      *)
 (* calls made by dict/set displays.                                          *)
-(* Cases are states: (ast, typing, outcome vector) with the expected log.    *)
+(* Cases are states: root -> AST -> (typing, all leaves truthy) -> one more    *)
+(* leaf outcome changed to falsy / raise (only leaves that are evaluated and  *)
+(* lie, in evaluation order, after every leaf changed before): each canonical *)
+(* outcome vector is reached once; the state carries the expected log, which  *)
+(* is published for the three-way replay (CPython, Cython-compiled).         *)
 EXTENDS Integers, Sequences, FiniteSets, TLC, Json, IOUtils
 
 CONSTANTS MaxLeaves,  \* bound on the number of leaves of one-level expressions
@@ -404,9 +408,6 @@ RhsFirstB == ast.t \in {"assign", "unpack"} =>
                      /\ (isRhs(LPs[i]) /\ ~isRhs(LPs[j])) => Pos(LPs[i]) < Pos(LPs[j])
                      /\ (i < j /\ ~isRhs(LPs[i]) /\ ~isRhs(LPs[j])) => Pos(LPs[i]) < Pos(LPs[j])
 AugOrderB == ast.t = "aug" => \A i, j \in EvaluatedIdx : i < j => Pos(LPs[i]) < Pos(LPs[j])
-\* a store is the last thing an assignment does for a target: the number of store events
-Stores == Cardinality({i \in 1..Len(log) : \E k \in 1..Len(log[i]) : SubSeq(log[i], k, k + 4) = ".seta" \/ SubSeq(log[i], k, k + 4) = ".seti"})
-
 CanonB == Canon(ast, lp, outs, log)
 CanonInv     == phase = "case" => CanonB
 AtMostOnce   == phase = "case" => AtMostOnceB
